@@ -72,7 +72,7 @@ def _worker(job):
         ex = driver.Explorer(I, prove_timeout_ms=pt, decide_timeout_ms=max(3000, min(pt // 3, 120000)))
         res = ex.run_harness(hname, h["func"], harness_params(h["func"]), summaries, loops, case)
         out = {
-            "harness": label, "base_harness": hname, "case": case_idx, "cases_fn": h["cases"], "case_desc": (case.get("example") if isinstance(case, dict) else None), "prop": prop, "target": h["target"], "proves": h["proves"], "note": h["note"],
+            "bounded": h["bounded"], "harness": label, "base_harness": hname, "case": case_idx, "cases_fn": h["cases"], "case_desc": (case.get("example") if isinstance(case, dict) else None), "prop": prop, "target": h["target"], "proves": h["proves"], "note": h["note"],
             "paths": res.paths, "completed_paths": res.completed_paths, "vcs": res.vcs,
             "time": res.time, "solver_time": res.solver_time, "error": res.error, "covers": res.covers,
             "obligations": {k: {"status": v["status"], "vcs": v["vcs"], "time": v["time"], "solvers": sorted(v["solvers"])}
@@ -227,6 +227,7 @@ def report(prop, spec, args, seed, results, extra, t0):
     samples = []
     vcs = 0
     pending = []
+    bounded_rows = []
     for r in results:
         vcs += r["vcs"]
         solver_time += r["solver_time"]
@@ -250,6 +251,9 @@ def report(prop, spec, args, seed, results, extra, t0):
         samples.extend(r["samples"][:1])
         for oname, d in r["obligations"].items():
             full = "%s/%s/%s" % (prop, r["harness"], oname)
+            if r.get("bounded"):
+                bounded_rows.append({"check": full, "bound": r["bounded"], "status": "held-on-everything-explored" if d["status"] == "proved" else d["status"]})
+                continue
             if "[known:" in oname and oname.split("[known:")[1].rstrip("]") in known_ids:
                 ob_rows.append({"obligation": full, "status": "known-finding:" + d["status"], "vcs": d["vcs"], "solver_s": round(d["time"], 3)})
                 continue
@@ -294,7 +298,6 @@ def report(prop, spec, args, seed, results, extra, t0):
     with ThreadPoolExecutor(8) as tp:
         for v in tp.map(_replay, pending[:CAP]):
             violations.append(v)
-    bounded_rows = []
     for g in extra["ground"]:
         for o in g["obligations"]:
             full = "%s/%s/%s" % (prop, g["name"], o["name"])
